@@ -91,6 +91,37 @@ impl NetCtx {
         }
     }
 
+    /// Same context with other NAMES for the wild-card / domain labels (the sets move with their label).
+    pub fn with_label_names(&self, wilds: &[&str], doms: &[&str]) -> NetCtx {
+        let mut c = self.relabel(self.labels.clone(), &self.label_desc, {
+            let mut v = vec![];
+            for i in 0..self.labels.wild.len() {
+                v.push(self.sets[&self.user.wilds[i]].clone());
+            }
+            for i in 0..self.labels.dom.len() {
+                v.push(self.sets[&self.user.doms[i]].clone());
+            }
+            v
+        });
+        let mut sets = HashMap::new();
+        for i in 0..c.labels.wild.len() {
+            sets.insert(wilds[i].to_string(), c.sets[&c.user.wilds[i]].clone());
+        }
+        for i in 0..c.labels.dom.len() {
+            sets.insert(doms[i].to_string(), c.sets[&c.user.doms[i]].clone());
+        }
+        for (i, w) in wilds.iter().enumerate() {
+            c.user.wilds[i] = w.to_string();
+            c.mini.wilds[i] = w.to_string();
+        }
+        for (i, d) in doms.iter().enumerate() {
+            c.user.doms[i] = d.to_string();
+            c.mini.doms[i] = d.to_string();
+        }
+        c.sets = sets;
+        c
+    }
+
     pub fn nprops(&self) -> u8 {
         self.props.len() as u8
     }
